@@ -134,6 +134,15 @@ def run(ctx):
                 ctx.report('decomp-sweep', '%s build: %s -> %s' % (j[0], j[1], o), {'case': j[1], 'build': j[0], 'result': o})
         ctx.cov['exhaustive_sweeps'] = 'all 2^32 coefficient values for (3,7) and (2,10), both builds'
     ctx.cov['correspondence_cases'] = len(cases); ctx.cov['disagreements'] = ndis
+    # several threads, one shared const TGswParams (threads evaluating under one key): a workspace kept in the shared object shows only here
+    for b in ('optim', 'debug'):
+        for (l, B) in ((3, 7), (2, 10), (16, 2), (1, 16)):
+            ln = 'decompmt %d %d 1024 4 %d %d' % (l, B, 300 if not thorough else 3000, ctx.seed + l)
+            o = vlib.run_lines(exes[b], [ln], timeout=1800)[0]; ctx.count((ln, b))
+            v = o.split()
+            if o.startswith('CRASH') or len(v) < 2 or int(v[0]) != 0:
+                ctx.report('decomp-concurrent', '%s build, (l,Bgbit)=(%d,%d): %s' % (b, l, B, ('%s of %s decompositions made by 4 threads that share one TGswParams object differ from the sequential result' % (v[0], v[1])) if len(v) >= 2 and not o.startswith('CRASH') else 'the run died: ' + o[:80]),
+                           {'case': ln, 'build': b, 'impl': o[:200]})
     ctx.cov['input_distribution'] = {'layouts': LAYOUTS, 'N': [8, 16, 1024, 3, 1, 256, 2048, 4096], 'builds': ['optim (AVX2 asm)', 'debug (scalar)']}
     for c in cases[:: max(1, len(cases) // 8)]: ctx.sample({'case': c[0][:160], 'build': c[1], 'impl': impl[cases.index(c)][:160]})
 
